@@ -20,6 +20,34 @@ def main(pid, argv):
     ck.assumptions = ["promptness in seconds and kernel wake-ups are sampled (the theorem bounds the number of internal steps)",
                       "runtime.NumGoroutine is compared before/after with a 30 ms settling time"]
     ck.check_obligations()
+    # ---- translator: the facts about ctxio/conn.go that the duplex model's parameters stand for, regenerated and checked inside Coq ----
+    import re
+    ok, out, gx = V.build_go("goctxio", overlay=False)
+    if not ok:
+        ck.broken.append("translator goctxio does not build: " + out[-400:])
+        return ck.finish()
+    gen = os.path.join(V.COQ, "gen")
+    os.makedirs(gen, exist_ok=True)
+    rc, txt = V.sh([gx, V.REPO], timeout=120)
+    if rc != 0:
+        ck.broken.append("translator goctxio failed on /repo's ctxio/conn.go: " + txt[-400:])
+    else:
+        open(os.path.join(gen, "GenCtxio.v"), "w").write(txt)
+        open(os.path.join(gen, "GenCtxioCheck.v"), "w").write("From VL Require Import Bytes Ctxio Duplex CtxFacts GenCtxio.\n"
+                                                             "Definition verdict := Eval vm_compute in ctxio_facts_ok ctxio_facts.\nPrint verdict.\n")
+        rc, o = V.sh("cd %s && timeout 300 coqc -Q . VL gen/GenCtxio.v && timeout 300 coqc -Q . VL gen/GenCtxioCheck.v" % V.COQ, timeout=700)
+        facts_ok = rc == 0 and re.search(r"verdict\s*=\s*true", o) is not None
+        rct, plain = V.sh([gx, V.REPO, "text"], timeout=60)
+        ck.extra["ctxio_facts"] = plain.strip().split("\n")[:20]
+        ck.obligations.append(("discipline ctxio_facts_ok holds for the facts regenerated from /repo's ctxio/conn.go (gen/GenCtxio.v, vm_compute): each operation "
+                               "sets only its own direction's deadline, makes its own completion channel, starts one helper and joins it when the context is done",
+                               facts_ok, "" if facts_ok else (plain.strip() + " | " + o[-500:])))
+        for ext in ("vo", "glob", "vok", "vos"):
+            for nme in ("GenCtxio", "GenCtxioCheck"):
+                try:
+                    os.remove(os.path.join(gen, "%s.%s" % (nme, ext)))
+                except OSError:
+                    pass
     bins = C.build(ck, ("h_ctx", "h_relay"))
     if bins is None:
         return ck.finish()
